@@ -16,13 +16,13 @@ m = types.ModuleType('eolib'); m.__path__ = [repo + '/src/eolib']; sys.modules['
 import eolib.data as D
 import eolib.encrypt as E
 out = []
-for job in json.load(sys.stdin):
+def one(job):
     fn, arg = job['fn'], job['arg']
     try:
         if fn == 'encode_number':
-            out.append(bytes(D.encode_number(arg)).hex())
+            return bytes(D.encode_number(arg)).hex()
         elif fn == 'decode_number':
-            out.append(D.decode_number(bytes.fromhex(arg)))
+            return D.decode_number(bytes.fromhex(arg))
         else:
             buf = bytearray.fromhex(arg)
             f = getattr(D, fn, None) or getattr(E, fn)
@@ -30,15 +30,34 @@ for job in json.load(sys.stdin):
                 f(buf, job['m'])
             else:
                 f(buf)
-            out.append(bytes(buf).hex())
+            return bytes(buf).hex()
     except Exception as e:
-        out.append('raised ' + type(e).__name__)
+        return 'raised ' + type(e).__name__
+jobs = json.load(sys.stdin)
+T = int(sys.argv[2]) if len(sys.argv) > 2 else 0
+if T <= 1:
+    out = [one(j) for j in jobs]
+else:
+    # the very first calls into the library in this process come from T threads at once
+    import threading
+    sys.setswitchinterval(1e-5)
+    out = [None] * len(jobs)
+    bar = threading.Barrier(T)
+    def work(t):
+        bar.wait()
+        for i in range(t, len(jobs), T):
+            out[i] = one(jobs[i])
+    ths = [threading.Thread(target=work, args=(t,)) for t in range(T)]
+    for th in ths: th.start()
+    for th in ths: th.join()
 print(json.dumps(out))
 """
 
 
-def run(jobs, flag):
-    r = subprocess.run([sys.executable, "-B", flag, "-c", _SUB, REPO], input=json.dumps(jobs),
+def run(jobs, flag, threads=0):
+    """flag: interpreter flag ("-O", "-OO", or "-B" for none); threads > 1: the jobs are the process' FIRST
+    calls into the library and are issued by that many threads released together."""
+    r = subprocess.run([sys.executable, "-B", flag, "-c", _SUB, REPO, str(threads)], input=json.dumps(jobs),
                        capture_output=True, text=True)
     if r.returncode != 0:
         raise RuntimeError(f"python {flag} helper failed: {r.stderr[-800:]}")
